@@ -37,6 +37,7 @@ ASSUMPTIONS = ['decoders of vt/codec.py (export: Brants 1997; PTB brackets; '
                'parentheses in constituent labels, a parenthesis flanked by '
                'dashes inside a word (the name mapping is ambiguous there)']
 WATCHDOG = {'quick': 900, 'thorough': 5400}
+LONG_SENTENCES = 3      # floor for the stratum the runner adds (gen.maybe_long)
 MIN = {'quick': {'distinct': 4000,
                  'hooks': dict([('treeoutput.' + f, 1500) for f in FORMATS]),
                  'strata': {'None field': 1500, 'word with parenthesis': 300,
@@ -388,6 +389,7 @@ def make_tree(rng, small=False):
     n = rng.randint(1, 5) if small else \
         (rng.choice([1, 2, 3, 5, 8]) if rng.random() < 0.6
          else rng.randint(1, 20))
+    n = n if small else gen.maybe_long(rng, n)
     spec = gen.tree(rng, n, pools, max_arity=rng.choice([2, 3, 5]),
                     p_unary=rng.choice([0, 0.15, 0.3]),
                     moves=rng.choice([0, 0, 0, 1, 2, 4]),
